@@ -29,6 +29,7 @@ ASSUMPTIONS = ['only call shapes the builtin itself accepts are claimed: when th
                'substitute may accept more', 'nan compared by repr']
 
 _S = {'tier': 'quick'}
+ITEM_TIMEOUT = {'quick': 60, 'thorough': 120}    # an item normally takes milliseconds
 
 
 def setup(tier, seed):
